@@ -150,9 +150,8 @@ def inlinable(F):
         simple = b.id.rsplit("::", 1)[-1]
         if simple in words:
             continue
-        if any(s_[0] == "A" and s_[1] == [0] and s_[2][0] == "agg" and isinstance(s_[2][1], dict) and ("coroutine" in s_[2][1] or "coroutine_closure" in s_[2][1])
-               for bl in b.blocks for s_ in bl["s"]):
-            continue  # async fn shell: its code lives in the coroutine body
+        # (an `async fn` shell only builds its coroutine; it is inlined like any fn, and the coroutine body is inlined at the
+        # `poll` of its `.await`, see _inline_into)
         if b.n > MAX_CALLEE_BLOCKS or b.n == 0:
             continue
         if any((c.t.get("r") or c.f) == b.id for c in b.all_calls()):
@@ -163,11 +162,61 @@ def inlinable(F):
     return out
 
 
-def _inline_into(F, raw, inl):
+POLL = "core::future::future::Future::poll"
+
+
+def async_bodies(F, inl):
+    """coroutine bodies of inlinable `async fn` shells: {coroutine id} (inlined where they are polled by an `.await`)"""
+    out = set()
+    for fid in inl:
+        b = F.bodies.get(fid)
+        if b is None:
+            continue
+        for bl in b.blocks:
+            for s_ in bl["s"]:
+                if s_[0] == "A" and s_[1] == [0] and s_[2][0] == "agg" and isinstance(s_[2][1], dict) and "coroutine" in s_[2][1]:
+                    cid = s_[2][1]["coroutine"]
+                    cb = F.bodies.get(cid)
+                    if cb is not None and cb.n <= MAX_CALLEE_BLOCKS and not any((c.t.get("r") or c.f) == cid for c in cb.all_calls()):
+                        out.add(cid)
+    return out
+
+
+def _awaitee(o, place):
+    """the local holding the future that `Pin::new_unchecked(&mut *(&mut fut))` pins: follow the reborrows back"""
+    seen = set()
+    cur = place
+    while cur is not None and cur[0] not in seen:
+        seen.add(cur[0])
+        nxt = None
+        for bl in o["blocks"]:
+            for s_ in bl["s"]:
+                if s_[0] == "A" and s_[1] == [cur[0]]:
+                    rv = s_[2]
+                    if rv[0] == "ref":
+                        nxt = [rv[2][0]] if all(x == "*" for x in rv[2][1:]) else None
+                    elif rv[0] == "use" and rv[1][0] in ("c", "m") and len(rv[1][1]) == 1:
+                        nxt = rv[1][1]
+            t = bl["term"]
+            if t["t"] == "call" and t.get("dest") == [cur[0]] and t.get("f", "").endswith("Pin::<Ptr>::new_unchecked") and t.get("args") and t["args"][0][0] in ("c", "m"):
+                nxt = [t["args"][0][1][0]]
+        if nxt is None:
+            return cur
+        cur = nxt
+    return cur
+
+
+def _inline_into(F, raw, inl, inl_co=frozenset()):
     """returns (new raw body dict or None if nothing was inlined, set of callee ids inlined)"""
     blocks = raw["blocks"]
-    todo = [(i, 0, frozenset([raw["id"]])) for i, bl in enumerate(blocks)
-            if bl["term"]["t"] == "call" and (bl["term"].get("r") or bl["term"].get("f")) in inl and not bl.get("cleanup")]
+
+    def wanted(t):
+        if t["t"] != "call":
+            return False
+        if (t.get("r") or t.get("f")) in inl:
+            return True
+        return t.get("f") == POLL and t.get("r") in inl_co
+    todo = [(i, 0, frozenset([raw["id"]])) for i, bl in enumerate(blocks) if wanted(bl["term"]) and not bl.get("cleanup")]
     if not todo:
         return None, set()
     o = dict(raw)
@@ -187,7 +236,10 @@ def _inline_into(F, raw, inl):
         c = callee.o
         if len(o["blocks"]) + len(c["blocks"]) > MAX_BLOCKS:
             continue
-        if len(t.get("args", [])) != c["argc"]:
+        is_poll = t.get("f") == POLL and r in inl_co
+        if not is_poll and len(t.get("args", [])) != c["argc"]:
+            continue
+        if is_poll and (len(t.get("args", [])) != 2 or t["args"][0][0] not in ("c", "m")):
             continue
         off = len(o["locals"])
         boff = len(o["blocks"])
@@ -203,13 +255,33 @@ def _inline_into(F, raw, inl):
             if cb.get("cleanup"):
                 nb["cleanup"] = True
             if nb["term"]["t"] == "ret":
-                nb["s"] = nb["s"] + [["A", dest, ["use", ["m", [off]]], line]]
+                if is_poll:
+                    # the awaited future completed: the poll yields Poll::Ready(return value)
+                    nb["s"] = nb["s"] + [["A", dest, ["agg", {"adt": "core::task::poll::Poll", "variant": "Ready", "vidx": 0, "fields": ["0"]}, [["m", [off]]]], line]]
+                else:
+                    nb["s"] = nb["s"] + [["A", dest, ["use", ["m", [off]]], line]]
                 nb["term"] = {"t": "goto", "tgt": ret_to, "line": cb["term"].get("line", line), "inl_ret": r} if ret_to is not None \
                     else {"t": "unreachable", "line": line}
-            elif nb["term"]["t"] == "call" and (nb["term"].get("r") or nb["term"].get("f")) in inl and not cb.get("cleanup"):
+            elif wanted(nb["term"]) and not cb.get("cleanup"):
                 todo.append((boff + i, depth + 1, chain | {r}))
             o["blocks"].append(nb)
-        bl["s"] = list(bl["s"]) + [["A", [off + 1 + i], ["use", a], line] for i, a in enumerate(t.get("args", []))]
+        if is_poll:
+            fut = _awaitee(o, t["args"][0][1])
+            bl["s"] = list(bl["s"]) + [["A", [off + 1], ["use", ["c", fut]], line], ["A", [off + 2], ["use", t["args"][1]], line]]
+            # the inlined future never reports Pending: cut that arm of the `.await` loop
+            if ret_to is not None:
+                rb = o["blocks"][ret_to]
+                rt = rb["term"]
+                if rt["t"] == "sw" and any(s_[0] == "A" and s_[2][0] == "disc" and s_[2][1] == dest and s_[1] == rt["d"][1] for s_ in rb["s"]):
+                    dead = len(o["blocks"])
+                    o["blocks"].append({"s": [], "term": {"t": "unreachable", "line": line}})
+                    nt = dict(rt)
+                    nt["targets"] = [[v_, (dead if v_ == 1 else b_)] for v_, b_ in rt["targets"]]
+                    rb2 = dict(rb)
+                    rb2["term"] = nt
+                    o["blocks"][ret_to] = rb2
+        else:
+            bl["s"] = list(bl["s"]) + [["A", [off + 1 + i], ["use", a], line] for i, a in enumerate(t.get("args", []))]
         bl["term"] = {"t": "goto", "tgt": boff, "line": line, "inl": r}
         used.add(r)
     if not used:
@@ -223,6 +295,7 @@ def inlined_view(F):
     if cached is not None:
         return cached
     inl = inlinable(F)
+    inl_co = async_bodies(F, inl)
     V = fx.Facts.__new__(fx.Facts)
     V.dir = F.dir
     V.adts, V.consts, V.meta = F.adts, F.consts, F.meta
@@ -234,7 +307,7 @@ def inlined_view(F):
     inlined_somewhere = set()
     changed = {}
     for bid, b in F.bodies.items():
-        o, used = _inline_into(F, b.o, inl)
+        o, used = _inline_into(F, b.o, inl, inl_co)
         if o is not None:
             changed[bid] = o
             inlined_somewhere |= used
